@@ -115,7 +115,7 @@ def jobs(tier):
         scs = sel + [b for i, b in enumerate(bs) if i % 2 == 0]
         k = 5
     else:
-        scs = all_sc + boundary_scenarios()
+        scs = [x for i, x in enumerate(all_sc) if i % 2 == seed % 2] + boundary_scenarios()   # half of the systematic product per run (the seed picks which half) keeps the tier under an hour
         k = 6
     js = []
     opn = open_findings('C12')
